@@ -67,6 +67,7 @@ EncodeVerdict(e, raw) ==
       x == SectionOf(s) IN
   IF Len(e.order) # Len(e.g.descs) + Len(e.foreign) THEN "harness-bad-order"
   ELSE IF e.data_before # raw THEN "data-changed-without-encoding"
+  ELSE IF ~Representable(s) THEN ""      \* the value has no encoding (a length exceeds its field): nothing to compare
   ELSE IF b # x THEN "not-canonical-" \o Where(b, x, s)
   ELSE IF e.bytes2 # b THEN "encoding-not-idempotent"
   ELSE IF e.data_after # b THEN "data-accessor-not-updated"
